@@ -221,6 +221,7 @@ pub struct Ctl<S> {
     pub split: u64,        // 0 = off; else PRNG state for transfer splitting
     pub max_chunk: usize,  // with split: at most this many bytes per call (>=1)
     pub interrupts: bool,  // with split: inject Interrupted with probability 1/4
+    pub split_max_len: usize, // with split: only transfers of at most this many bytes are split (0 = all)
     pub ops_shared: Rc<Cell<u64>>,   // mirrors c.ops for an observer that does not own the stream
     pub fired_shared: Rc<Cell<bool>>,
     pub bytes_shared: Rc<Cell<u64>>, // bytes read + written
@@ -242,6 +243,7 @@ impl<S> Ctl<S> {
             split: 0,
             max_chunk: 1,
             interrupts: false,
+            split_max_len: 0,
             ops_shared: Rc::new(Cell::new(0)),
             fired_shared: Rc::new(Cell::new(false)),
             bytes_shared: Rc::new(Cell::new(0)),
@@ -309,7 +311,7 @@ impl<S: Read> Read for Ctl<S> {
             return Err(Self::fault_err());
         }
         let mut n = buf.len();
-        if self.split != 0 && n > 0 {
+        if self.split != 0 && n > 0 && (self.split_max_len == 0 || n <= self.split_max_len) {
             if self.interrupts && self.rnd() % 4 == 0 {
                 return Err(io::Error::new(io::ErrorKind::Interrupted, "verif: interrupted"));
             }
@@ -355,7 +357,7 @@ impl<S: Write> Write for Ctl<S> {
             n = n.min(left);
             self.arm_shared.set(armed - n as u64);
         }
-        if self.split != 0 && n > 0 {
+        if self.split != 0 && n > 0 && (self.split_max_len == 0 || n <= self.split_max_len) {
             if self.interrupts && self.rnd() % 4 == 0 {
                 return Err(io::Error::new(io::ErrorKind::Interrupted, "verif: interrupted"));
             }
